@@ -72,7 +72,7 @@ func reportM1(c *core.Ctx, s *Sched, panicMsg string, cs map[string]any, deadloc
 	}
 	switch {
 	case s.Unrepresentable():
-		c.Cover("m1.abandoned(committed-goroutine-ready-on-a-replaced-channel)")
+		c.Cover(s.AbandonReason())
 		return false
 	case s.Stuck():
 		c.Inconclusive("M1: a released goroutine neither reached a hook nor ended within 3 s (watchdog, not a verdict)")
@@ -110,7 +110,7 @@ func RunC04M1(c *core.Ctx) {
 	if !reportM1(c, res.Sched, res.Panic, cs, true) {
 		return
 	}
-	for _, f := range CheckQueueHistory(res.Hist, p.Cap, res.Final, res.FinalSize, res.FinalEmp) {
+	for _, f := range res.Check() {
 		if strings.HasPrefix(f.Sig, "inconclusive/") {
 			c.Inconclusive(f.Msg)
 			continue
@@ -595,8 +595,15 @@ func runM2(c *core.Ctx, idx int, onlyLiveness bool) {
 // closed, closer, one RemoveAll caller, capacity 1".
 func ReproRemoveAll() (bool, string) {
 	p := QProgram{Cap: 1, Producers: []int{2}, Consumers: []int{-1}, Closer: true, RemoveAll: true}
+	stuck := 0
 	for seed := uint64(0); seed < 300; seed++ {
+		if stuck >= 2 {
+			return false, "inconclusive: two controlled schedules of the RemoveAll program got stuck (a released goroutine never reached a hook again)"
+		}
 		res := RunQProgram(core.NewRng(77, seed), p)
+		if res.Sched.Stuck() {
+			stuck++
+		}
 		switch {
 		case res.Sched.Deadlock() != "":
 			return true, fmt.Sprintf("schedule %v ends in a state where nobody can proceed: %s", res.Sched.Trace, res.Sched.Deadlock())
@@ -605,7 +612,7 @@ func ReproRemoveAll() (bool, string) {
 		case res.Sched.Stuck() || res.Sched.Unrepresentable():
 			continue
 		}
-		for _, f := range CheckQueueHistory(res.Hist, p.Cap, res.Final, res.FinalSize, res.FinalEmp) {
+		for _, f := range res.Check() {
 			if !strings.HasPrefix(f.Sig, "inconclusive/") {
 				return true, f.Msg
 			}
@@ -685,11 +692,11 @@ func runDFS(c *core.Ctx, p QProgram, idx int, prop string, maxPreempt, budget in
 		explored++
 		cs := map[string]any{"program": p.String(), "history": res.Hist.Strings()}
 		if res.Sched.Unrepresentable() {
-			c.Cover("m1.abandoned(committed-goroutine-ready-on-a-replaced-channel)")
+			c.Cover(res.Sched.AbandonReason())
 		} else if !reportM1(c, res.Sched, res.Panic, cs, true) {
 			return
 		} else if prop == "C04" {
-			for _, f := range CheckQueueHistory(res.Hist, p.Cap, res.Final, res.FinalSize, res.FinalEmp) {
+			for _, f := range res.Check() {
 				if strings.HasPrefix(f.Sig, "inconclusive/") {
 					c.Inconclusive(f.Msg)
 					continue
